@@ -217,14 +217,19 @@ void sqf::fileio::impl_default::add_pbo_mapping(rvutils::pbo::pbofile& pbo)
     }
 
     m_pbos[pbo.path().lexically_normal().string()] = pbo;
-    std::filesystem::path prefix(*prefix_optional);
+    // PBO prefixes and entry names use backslashes, which are no path separators for std::filesystem::path everywhere
+    auto prefix_string = *prefix_optional;
+    std::replace(prefix_string.begin(), prefix_string.end(), '\\', '/');
+    std::filesystem::path prefix(prefix_string);
 
 
     // We need to register all files with the virtual pathing
     for (auto& file_desc : pbo.files())
     {
         // Construct file path
-        auto file_path = (prefix / file_desc.name).lexically_normal();
+        auto file_name = file_desc.name;
+        std::replace(file_name.begin(), file_name.end(), '\\', '/');
+        auto file_path = (prefix / file_name).lexically_normal();
         auto path_iter = file_path.begin();
 
         // Navigate to last available virtual file node from root node
@@ -355,6 +360,11 @@ std::string sqf::fileio::impl_default::read_file(sqf::runtime::fileio::pathinfo 
             }
             auto prefix = prefix_optional.value();
             auto pbo_path = info.virtual_;
+            // the virtual path may be absolute, the prefix never starts with a separator
+            while (!pbo_path.empty() && pbo_path.front() == '/' && !(prefix.length() > 0 && (prefix.front() == '/' || prefix.front() == '\\')))
+            {
+                pbo_path.erase(pbo_path.begin());
+            }
 
             if (pbo_path.length() > prefix.length() + 1)
             {
